@@ -52,6 +52,7 @@ struct Exec
     std::vector<int> issueAt;    // loop steps before each write is issued
     int plan[8];                 // AnsSpec per socket write call index
     int clientInputAtBlock = 0;  // the client sends bytes on the same connection while a write is blocked
+    unsigned foreign       = 0;  // bit i: write i is issued as if from a thread other than the event loop's
 };
 
 struct PromiseObs
@@ -73,6 +74,14 @@ static std::string exec_desc(const Exec& e)
     d += "]";
     if (e.clientInputAtBlock)
         d += " +client-input-while-blocked";
+    if (e.foreign)
+    {
+        d += " issued-from-another-thread=[";
+        for (size_t i = 0; i < e.kinds.size(); ++i)
+            if (e.foreign >> i & 1)
+                d += std::to_string(i) + " ";
+        d += "]";
+    }
     return d;
 }
 
@@ -140,6 +149,27 @@ static void run_exec(const Exec& e, vr::Ctx& ctx, uint64_t& steps)
             auto onErr      = [o](std::exception_ptr) { o->settled++; o->rejected++; };
             const Kind& k   = kKinds[e.kinds[i]];
             std::string dat = content(e.kinds[i], (int)i);
+            // "from another thread": the transport decides by comparing thread ids, so the loop's recorded id is
+            // changed for the duration of the call (the cross-thread hand-off itself is the mailbox of C13)
+            struct OtherThread
+            {
+                Tcp::Transport* t;
+                std::thread::id saved;
+                bool on;
+                OtherThread(Tcp::Transport* t_, bool on_)
+                    : t(t_)
+                    , saved(t_->context_.tid)
+                    , on(on_)
+                {
+                    if (on)
+                        t->context_.tid = std::thread::id();
+                }
+                ~OtherThread()
+                {
+                    if (on)
+                        t->context_.tid = saved;
+                }
+            } other(loop.transport.get(), (e.foreign >> i & 1) != 0);
             if (k.file)
             {
                 std::string path = gFileDir + "/w" + std::to_string(getpid()) + "_" + std::to_string(e.kinds[i]) + "_" + std::to_string(i);
@@ -287,16 +317,25 @@ static void case_c06(uint64_t idx, vr::Ctx& ctx)
             e.plan[i] = plan[i];
             hasBlock |= plan[i] >= A_BLOCK0;
         }
-        for (int ci = 0; ci <= (hasBlock ? 1 : 0); ++ci)
+        int deviations = 0;
+        for (int i = 0; i < 8; ++i)
+            deviations += plan[i] != A_FULL;
+        // every subset of the writes issued from another thread, for the plans with at most one deviation
+        for (unsigned fm = 0; fm < (deviations <= 1 && !gDeep ? 1u << e.kinds.size() : 1u); ++fm)
         {
-            e.clientInputAtBlock = ci;
-            ctx.note("c06 " + exec_desc(e));
-            run_exec(e, ctx, steps);
-            ++execs;
-            ctx.poll_reports();
-            if (ctx.case_violations > 6)
-                break;
+            e.foreign = fm;
+            for (int ci = 0; ci <= (hasBlock ? 1 : 0); ++ci)
+            {
+                e.clientInputAtBlock = ci;
+                ctx.note("c06 " + exec_desc(e));
+                run_exec(e, ctx, steps);
+                ++execs;
+                ctx.poll_reports();
+                if (ctx.case_violations > 6)
+                    break;
+            }
         }
+        e.foreign = 0;
         if (ctx.case_violations > 6)
             break;
     }
